@@ -16,6 +16,9 @@
 //                   NODE x0 x1 y0 y1                         (id = order of appearance)
 //                   EDGE k (node kind)*k                     (id = order; kinds as above, first/last = 4)
 //                   MOVE dim k (id desired weight)*k         ColaTopologyAddon::moveTo: one TopologyConstraints, solve() until not interrupted
+//                                                            + an "MI <op> ..." line (see move_info below): coords[] returned vs rectangle centres, and the state
+//                                                            after the call compared with every iteration of a reference loop (the library's own
+//                                                            TopologyConstraints::solve() repeated on a copy of the scene made before the call)
 //                   RESIZE k (id x y w h)*k                  ColaTopologyAddon::handleResizes (topology::applyResizes)
 //                   DRAG dim nsteps (k (id desired weight)*k)*nsteps
 //                                                            ONE topology::TopologyConstraints(dim, nodes, edges, nullptr, vs, cs) kept alive over
